@@ -17,7 +17,7 @@ def h_fault(k0: int, k1: int, k2: int, k3: int, k4: int, k5: int, k6: int, k7: i
     reset_run()
     op, kind = op_of(P("op"))
     d = mkdata([k0, k1, k2, k3, k4, k5, k6, k7], [n0, n1, n2, 0], [p0, p1, p2], [b0, b1, b2])
-    o = Opts(fl=[P("fl", "agen")] * 4, ffl=P("ffl", "def"))
+    o = Opts(fl=(P("fls") or [P("fl", "agen")] * 4), ffl=P("ffl", "def"))
     fault = make_fault(y)
     fkind = None
     if P("Z", (0, 0))[1] > 0:
@@ -26,6 +26,7 @@ def h_fault(k0: int, k1: int, k2: int, k3: int, k4: int, k5: int, k6: int, k7: i
             if z == i:
                 fkind = nm
     Wa, Ws = World("a", fault_at=x, fault=fault, fault_kind=fkind), World("s", fault_at=x, fault=fault, fault_kind=fkind)
+    Wa.aclose_ret = P("aclose_ret")
     D = Driver(Wa, sync_only=True)
     try:
         out_a, end_a, _h = run_async(op, kind, Wa, D, d, o)
@@ -202,6 +203,13 @@ def jobs(tier):
             for b1 in (False, True):
                 add("merge", 2, 2, 8, fl=fl, ffl=ffl, b0=b0, b1=b1)
         add("compress", 2, 2, 6, fl=fl, ffl=ffl)
+    # a sync container next to a failing async source (an empty list is falsy)
+    for op in ("zip", "map", "zip_longest", "chain", "compress"):
+        for fls in (["acls", "list"], ["list", "agen"]):
+            add(op, 2, 1, 5, fls=fls + fls, ffl="defaw")
+    # a source whose aclose() returns something truthy must not make the tool swallow the fault
+    for op in ("filter", "enumerate", "accumulate_f", "takewhile", "starmap", "list", "sum" if False else "max", "sorted", "reduce"):
+        add(op, 1, N1, 2 * N1 + 2, fl="acls", ffl="def", aclose_ret=True)
     for key in ("none", "def", "adef"):
         for fl in ("agen", "acls"):
             J.append({"module": "c06", "fn": "h_fault_groupby", "part": {"N": (2 if q else 3), "key": key, "fl": fl}, "timeout": T})
